@@ -297,3 +297,48 @@ Section KB.
     rewrite (Hd5 e5 [] (Datatypes.S fd2) Hf5); [reflexivity | intros _; rewrite c_tag_nil; congruence | lia].
   Qed.
 End KB.
+
+(** Non-vacuity at the schema regenerated from /repo: real key blocks (plain with transparent
+    key material and every optional element present, wrapped with key wrapping data, raw bytes,
+    the last KeyMaterial alternative, metadata only) conform, and their binary encoding decodes
+    back to them. *)
+From KV Require Import BinCursorProofs KmipCodec.
+From KVGen Require Import KmipSchema.
+
+Definition ex_kb_symmetric : value :=
+  VStruct "kmip.KeyBlock" [VInt 7; VInt 1;
+    VPtr (VStruct "kmip.KeyValue" [VNil; VPtr (VStruct "kmip.PlainKeyValue"
+      [VStruct "kmip.KeyMaterial" [VNil; VPtr (VStruct "kmip.TransparentSymmetricKey" [VStr [1; 2; 3; 4; 5; 6; 7; 8]]); VNil; VNil; VNil; VNil; VNil; VNil];
+       VList []])]);
+    VInt 3; VInt 256; VNil].
+Definition ex_kb_wrapped : value :=
+  VStruct "kmip.KeyBlock" [VInt 1; VInt 0;
+    VPtr (VStruct "kmip.KeyValue" [VPtr (VStr [222; 173; 190; 239]); VNil]);
+    VInt 3; VInt 0;
+    VPtr (VStruct "kmip.KeyWrappingData" [VInt 1;
+      VPtr (VStruct "kmip.EncryptionKeyInformation" [VStr [107; 101; 121; 45; 49]; VNil]); VNil; VStr []; VStr [1; 2; 3]; VInt 1])].
+Definition ex_kb_raw : value :=
+  VStruct "kmip.KeyBlock" [VInt 1; VInt 0;
+    VPtr (VStruct "kmip.KeyValue" [VNil; VPtr (VStruct "kmip.PlainKeyValue"
+      [VStruct "kmip.KeyMaterial" [VPtr (VStr [9; 8; 7; 6]); VNil; VNil; VNil; VNil; VNil; VNil; VNil]; VList []])]);
+    VInt 0; VInt 128; VNil].
+Definition ex_kb_ec_public : value :=
+  VStruct "kmip.KeyBlock" [VInt 21; VInt 0;
+    VPtr (VStruct "kmip.KeyValue" [VNil; VPtr (VStruct "kmip.PlainKeyValue"
+      [VStruct "kmip.KeyMaterial" [VNil; VNil; VNil; VNil; VNil; VNil; VNil;
+         VPtr (VStruct "kmip.TransparentECPublicKey" [VInt 1; VStr [4; 1; 2]])]; VList []])]);
+    VInt 6; VInt 256; VNil].
+Definition ex_kb_metadata : value :=
+  VStruct "kmip.KeyBlock" [VInt 2; VInt 0; VNil; VInt 4; VInt 2048; VNil].
+
+Definition kb_example_ok (v : value) : Prop :=
+  (exists sc, conf_ty kmip_schema kmip_ops kmip_attrs kmip_objs 40 (Some (1, 4)) (TNamed "kmip.KeyBlock") 4325440 v = Some sc) /\
+  (do r <- enc_ty kmip_schema 30 (Some (1, 4)) (TNamed "kmip.KeyBlock") 4325440 v ;;
+   do c <- bin_cursor (wire_enc_list (fst r)) ;;
+   do d <- dec_ty kmip_schema kmip_ops kmip_attrs kmip_objs bin_fmt 120 (Some (1, 4)) (TNamed "kmip.KeyBlock") 4325440 c ;;
+   Ok (value_eqb (fst (fst d)) v && match fst (snd (fst d)) with [] => true | _ => false end)) = Ok true.
+
+Example rt_key_block_example :
+  kb_example_ok ex_kb_symmetric /\ kb_example_ok ex_kb_wrapped /\ kb_example_ok ex_kb_raw /\
+  kb_example_ok ex_kb_ec_public /\ kb_example_ok ex_kb_metadata.
+Proof. repeat split; try (eexists; vm_compute; reflexivity); vm_compute; reflexivity. Qed.
